@@ -1,6 +1,7 @@
 //! Engine B: world generator + in-process drivers for all generators.
 mod backends;
 mod c05;
+mod c07;
 mod c09;
 mod c10;
 mod c12;
@@ -45,6 +46,7 @@ fn main() {
     let mut check = vcommon::Check::new(&args);
     match args.id.as_str() {
         "C05" | "C06" => c05::run(&mut check),
+        "C07" => c07::run(&mut check),
         "C09" => c09::run(&mut check),
         "C10" | "C11" => c10::run(&mut check),
         "C12" => c12::run(&mut check),
